@@ -399,3 +399,54 @@ def integer_typed_matrices(tier, rng, rep):
             if got.shape != want.shape or not np.all(np.abs(got - want) <= 1e-9 * (1 + np.max(np.abs(want)))):
                 rep.fail("same_image_as_for_the_float_copy", f"{nm}: {np.real(got).tolist()} vs {np.real(want).tolist()}", inp)
             rep.case(key=(t, nm), nontrivial=abs(round(np.linalg.det(A))) != 1)
+
+
+@bounded(P, "near_identity_and_unbalanced_scales", functions=["geometry_tools/lie/core.py:sl2c_to_so31", "geometry_tools/lie/core.py:sl2c_herm_action", "geometry_tools/lie/core.py:sl2_to_so21",
+                                                               "geometry_tools/lie/core.py:sl2_irrep", "geometry_tools/lie/core.py:sln_adjoint", "geometry_tools/lie/core.py:slc_to_slr"],
+         note="products to products for valid group elements within 1e-10..1e-6 of the identity multiplied with elements of large or unbalanced scale (diag(s, 1/s), s up to 1e3), and high powers "
+              "by repeated squaring: the error allowed is the rounding error of the matrix products (relative to |hom(A)| |hom(B)|), so an absolute threshold applied to the image is visible")
+def near_identity_and_unbalanced_scales(tier, rng, rep):
+    N = 200 if tier == 'thorough' else 40
+    maps = {"sl2c_to_so31": (lambda A: lie.sl2c_to_so31(A), True), "sl2_to_so21": (lambda A: lie.sl2_to_so21(A), False), "sl2_irrep3": (lambda A: lie.sl2_irrep(A, 3), False),
+            "sl2_irrep4": (lambda A: lie.sl2_irrep(A, 4), False), "sln_adjoint": (lambda A: lie.sln_adjoint(A), False), "slc_to_slr": (lambda A: lie.slc_to_slr(A), True)}
+    rep.rule = ("P = unipotent / diagonal / rotation element at distance eps in {1e-10 .. 1e-6} from the identity (determinant exactly or to rounding one), D = diag(s, 1/s) or a random element "
+                "of norm up to 1e3; clauses hom(D P) = hom(D) hom(P), hom(P D) = hom(P) hom(D), hom(P)^(2^k) = hom(P^(2^k)) for k up to 28; maps: " + ", ".join(maps))
+    rep.bound = f"{N} rounds x {len(maps)} maps"
+    for t in range(N):
+        eps = 10.0 ** rng.uniform(-10, -6) * rng.choice([-1, 1])
+        kindP = ["upper", "lower", "diagonal", "rotation"][t % 4]
+        for mname, (f, cplx) in maps.items():
+            z = eps * (np.exp(1j * rng.uniform(0, 6.28)) if cplx else 1.0)
+            one = (1 + 0j) if cplx else 1.0
+            P_ = {"upper": np.array([[one, z], [0, one]]), "lower": np.array([[one, 0], [z, one]]), "diagonal": np.array([[one + z, 0], [0, 1 / (one + z)]]),
+                  "rotation": np.array([[np.cos(eps) * one, -np.sin(eps)], [np.sin(eps), np.cos(eps) * one]])}[kindP]
+            s_ = 10.0 ** rng.uniform(0, 3)
+            if t % 2:
+                D_ = np.array([[s_ * one, 0], [0, one / s_]])
+            else:
+                G = rng.normal(size=(2, 2)) + (1j * rng.normal(size=(2, 2)) if cplx else 0)
+                G = G / np.sqrt(np.linalg.det(G) + 0j) if cplx else (G / np.sqrt(abs(np.linalg.det(G))) if np.linalg.det(G) > 0 else G[::-1] / np.sqrt(abs(np.linalg.det(G))))
+                D_ = np.array([[s_ ** 0.5 * one, 0], [0, one / s_ ** 0.5]]) @ G
+            inp = {"map": mname, "P_re": np.real(P_).tolist(), "P_im": np.imag(P_).tolist(), "D_re": np.real(D_).tolist(), "D_im": np.imag(D_).tolist(), "eps": eps}
+
+            def body():
+                hP, hD = np.asarray(f(P_.copy())), np.asarray(f(D_.copy()))
+                for nm, (X, Y, hX, hY) in {"D_times_P": (D_, P_, hD, hP), "P_times_D": (P_, D_, hP, hD)}.items():
+                    got, want = np.asarray(f(X @ Y)), hX @ hY
+                    tol = 1e-11 * (1 + np.max(np.abs(hX))) * (1 + np.max(np.abs(hY))) * (1 + np.max(np.abs(X)) * np.max(np.abs(Y)))
+                    if not np.all(np.abs(got - want) <= tol):
+                        rep.fail("multiplicative", f"{mname}: hom({nm}) differs from the product of the images by {np.max(np.abs(got - want))} (rounding allowance {tol})", {**inp, "clause": nm}); return
+                # high power by repeated squaring (unipotent / rotation elements stay bounded)
+                if kindP in ("upper", "lower", "rotation"):
+                    K = 28 if abs(eps) < 1e-8 else 18
+                    Q, hQ = P_.copy(), hP.copy()
+                    for _ in range(K):
+                        Q, hQ = Q @ Q, hQ @ hQ
+                    got = np.asarray(f(Q))
+                    tol = 1e-9 * (1 + np.max(np.abs(got))) * 2 ** K * 1e-3 + 1e-6 * (1 + np.max(np.abs(got)))
+                    if not np.all(np.abs(got - hQ) <= tol):
+                        rep.fail("multiplicative", f"{mname}: hom(P)^(2^{K}) differs from hom(P^(2^{K})) by {np.max(np.abs(got - hQ))}", {**inp, "clause": f"power 2^{K}"}); return
+            rep.attempt("lie_map_runs", inp, body)
+            rep.case(key=(t, mname), nontrivial=True, sample=inp if (t, mname) == (0, "sl2c_to_so31") else None)
+            if len(rep.failures) >= 3:
+                return
